@@ -158,6 +158,7 @@ def bel_loco_case(n):
         Claim("soc_moves_by_chemical_energy/capacity", lambda c: EQ((c.pre[P + "res.state.soc"] - c.post[P + "res.state.soc"]) * c.pre[P + "res.energy_capacity"], c.post[P + "res.state.pwr_out_chemical"] * dt(c))),
         Claim("acc loco energy_out", lambda c: acc(c, "state.energy_out", "state.pwr_out", dt(c))),
         Claim("acc res energy_out_chemical", lambda c: acc(c, P + "res.state.energy_out_chemical", P + "res.state.pwr_out_chemical", dt(c))),
+        Claim("under traction the battery carries the whole auxiliary load the locomotive books", lambda c: IMP(XGT(c.post[P + "edrv.state.pwr_elec_prop_in"], 0), EQ(c.post[P + "res.state.pwr_aux"], c.post["state.pwr_aux"])), role="aux_fully_supplied_in_traction"),
         Claim("battery aux never above locomotive aux", lambda c: LE(c.post[P + "res.state.pwr_aux"], c.post["state.pwr_aux"])),
         Claim("no_panic", None, when="nopanic"),
     ]
